@@ -130,6 +130,12 @@ def cases(tier, seed):
         for b_ in (0.5, 1.5, 2.5):
             for D in ((4, 5, 6) if tier == 'quick' else (4, 5, 6, 7)):
                 out.append({'kind': 'hyperu_poly', 'seed': case_seed('C01', seed, 'hyperu_poly', n_, b_, D), 'params': {'n': n_, 'b': b_, 'D': D}})
+    # |x(t)| of a complex polynomial is a real-analytic function of t away from x_0 = 0: sqrt(x(t) conj(x(t)))
+    for D in ((1, 2, 3, 5) if tier == 'quick' else (1, 2, 3, 4, 6, 8)):
+        for rep in range(3 if tier == 'quick' else 8):
+            for entry in range(4):
+                out.append({'kind': 'abs_complex', 'seed': case_seed('C01', seed, 'abs_complex', D, rep, entry), 'params': {'D': D, 'entry': entry, 'P': 1 + rep % 3,
+                            'shape': [[], [3], [2, 2]][rep % 3]}})
     return out + extreme_cases(tier, seed)
 
 
@@ -257,6 +263,8 @@ def run_case(ctx, case):
         return _extreme(ctx, p, rng)
     if case['kind'] == 'hyperu_poly':
         return _hyperu_poly(ctx, p, rng)
+    if case['kind'] == 'abs_complex':
+        return _abs_complex(ctx, p, rng)
     name, D, P, shape, pat = p['fn'], p['D'], p['P'], tuple(p['shape']), p['pattern']
     if name in PIECEWISE:
         return _piecewise(ctx, p, rng)
@@ -378,6 +386,37 @@ def _hyperu_poly(ctx, p, rng):
                             ctx.violation('hyperu:polynomial-case:coeff:%s' % label, {'a': -n, 'b': b, 'D': D, 'P': P, 'entry': ename, 'x0': float(data[0, pp, i]),
                                           'got': [float(v) for v in y.data[:, pp, i]], 'want': [float(v) for v in ref], 'err_over_majorant': e}); return
             ctx.ok('hyperu', ('hyperu_poly', n, b, D, P, label))
+
+
+def _abs_complex(ctx, p, rng):
+    D, P, shape, entry = p['D'], p['P'], tuple(p['shape']), p['entry']
+    data = gen.series_data(rng, D, P, shape, 'nz', 'random', True)      # |x0| >= 0.4: away from the kink at 0
+    x = UTPM(data.copy())
+    ename = ['algopy.absolute', 'UTPM.absolute', 'abs()', 'fabs'][entry]
+    try:
+        y = [lambda: algopy.absolute(x), lambda: UTPM.absolute(x), lambda: abs(x), lambda: x.fabs()][entry]()
+    except Exception as e:
+        ctx.violation('absolute:complex:raises', {'entry': ename, 'error': repr(e)[:200]}); return
+    if not isinstance(y, UTPM) or y.data.shape != data.shape:
+        ctx.violation('absolute:complex:shape', {'entry': ename, 'got': getattr(getattr(y, 'data', None), 'shape', None), 'want': data.shape}); return
+    worst = 0.0
+    for pp in range(P):
+        for idx in _elements(shape, rng, 3):
+            xs = [O.num(complex(v)) for v in data[(slice(None), pp) + idx]]
+            sq = O.mul(xs, [mp.conj(v) for v in xs])
+            sq = [mp.re(v) for v in sq]
+            msq = O.mul([abs(v) for v in xs], [abs(v) for v in xs])
+            fk = O.taylor_coeffs(mp.sqrt, sq[0], D - 1)
+            ref = O.compose(fk, sq)
+            maj = O.compose([abs(v) for v in fk], [abs(sq[0])] + msq[1:])
+            got = y.data[(slice(None), pp) + idx]
+            e = O.err_over_maj(list(got), ref, maj)
+            worst = max(worst, e)
+            if not e <= TAU:
+                ctx.violation('absolute:complex:coeff', {'entry': ename, 'D': D, 'P': P, 'shape': shape, 'err_over_majorant': e,
+                                                         'x': [str(complex(v)) for v in data[(slice(None), pp) + idx]][:4],
+                                                         'got': [str(complex(v)) for v in got][:4], 'want': [str(complex(v)) for v in ref][:4]}); return
+    ctx.ok('absolute', ('abs_complex', D, P, shape, entry), noise=worst)
 
 
 def _piecewise(ctx, p, rng):
